@@ -44,7 +44,8 @@ PROPS = {
         "trusted_base": IMG_TB, "assumptions": IMG_ASSUME,
     },
     "C19": {
-        "runs": [dict(IMG_RUN, leaks_fail=True)],
+        "runs": [{"cmd": "image-leak", "mode": "image", "cases": {"quick": 1, "thorough": 1}, "corpus": True, "leaks_fail": True},
+                 dict(IMG_RUN, leaks_fail=True)],
         "rule": IMG_RULE + " C19 (accounting): for ln and bbn every page number in [1, bump) must be in use by the decoded state (leaf / overflow / branch) or tracked by the "
                 "free list (free-list page or listed free page), and no page may be both; the driver prints ln_leaked / bbn_leaked per snapshot and any non-zero value is reported as "
                 "`C19 leaked pages: …`; hash-table occupancy = number of full meta bytes (ht_full) is cross-checked against the stored page set.",
